@@ -765,6 +765,8 @@ def adapt_typehints(
 
     # Any
     if typehint == Any:
+        if isinstance(val, NestedArg):
+            raise_unexpected_value("Nested keys are not supported for type Any", val)
         type_val = type(val)
         if get_registered_type(type_val) or is_subclass(type_val, Enum):
             val = adapt_typehints(val, type_val, **adapt_kwargs)
